@@ -1,5 +1,5 @@
 """C11 implementation driver: runs inside /venv/bin/python with Scenic from $VERIF_REPO.
-JSON in: {jobs: [{id, src, runs: [{table, offset, waits, after, end}]}]}.
+JSON in: {jobs: [{id, src, runs: [{table, offset, waits, after, end, doform, dofor, until, sublimit, subn, termstmt, timestep}]}]}.
 JSON out (last line): {results: [{id, compile: "ok"|"<ExcClass>: msg", outcomes: [str]}]}
 outcome: "A" accepted (simulate returned a Simulation), "G" scene rejected while sampling,
 "R<t>" simulation rejected at step t, "X:<ExcClass>:<msg>" anything else."""
@@ -48,7 +48,10 @@ def main():
         simulator = Sim()
         for run in job["runs"]:
             H.STATE.update(table=run["table"], offset=run["offset"], waits=run["waits"],
-                           after=run["after"], term=(run["end"] == "term"))
+                           after=run["after"], term=(run["end"] == "term"),
+                           doform=run.get("doform", 0), dofor=run.get("dofor", 0), until=run.get("until"),
+                           sublimit=run.get("sublimit", 0), subn=run.get("subn", 0),
+                           termstmt=bool(run.get("termstmt", False)))
             del H.CALLS[:]
             try:
                 try:
@@ -56,8 +59,9 @@ def main():
                 except RejectionException:
                     res["outcomes"].append("G")
                     continue
-                maxSteps = None if run["end"] == "term" else len(run["table"]) - 1
-                sim = simulator.simulate(scene, maxSteps=maxSteps, maxIterations=1, verbosity=0)
+                maxSteps = len(run["table"]) - 1 if run["end"] == "max" else None
+                sim = simulator.simulate(scene, maxSteps=maxSteps, maxIterations=1, verbosity=0,
+                                         timestep=run.get("timestep", 1))
                 if sim is not None:
                     o = "A"
                     if sim.currentTime != len(run["table"]) - 1:
